@@ -119,6 +119,89 @@ macro_rules! parts {
     }};
 }
 
+/// What the parser may have collected when ESC c arrives: every string of up to
+/// `n` characters over the parameter / sub-parameter / marker / intermediate / final
+/// bytes, after each introducer - finished or unfinished sequences and control strings.
+fn residues(n: usize) -> Vec<String> {
+    let bytes = ['0', '7', ':', ';', '?', '$', 'm', 'H', 'q'];
+    let mut bodies: Vec<String> = vec![String::new()];
+    let mut level: Vec<String> = vec![String::new()];
+    for _ in 0..n {
+        let mut next = vec![];
+        for b in &level {
+            for c in bytes {
+                next.push(format!("{}{}", b, c));
+            }
+        }
+        bodies.extend(next.iter().cloned());
+        level = next;
+    }
+    let mut v = vec![];
+    for intro in ["\x1b[", "\u{9b}", "\x1bP", "\u{90}", "\x1b]", "\x1b_"] {
+        for b in &bodies {
+            v.push(format!("{}{}", intro, b));
+        }
+    }
+    v
+}
+
+/// The terminal side of RIS is explored by the BFS parts; this part enumerates the
+/// PARSER side: whatever was collected before ESC c, every continuation afterwards
+/// must be treated exactly as by a fresh terminal.
+fn parser_residue(ctx: &Ctx, rep: &mut Report) {
+    use rayon::prelude::*;
+    let res = residues(ctx.tier.pick(3, 4));
+    let (cols, rows) = (5usize, 3usize);
+    let mut conts: Vec<String> = battery(cols, rows);
+    for s in ["\x1b[2;3Hx", "\x1b[3Cx", "\x1b[2Bx", "\x1b[1;31mx", "\u{9b}2;3Hx", "\u{9b}4mx", "\x1b[2;3r\x1b[?6h\x1b[Hx", "\x1b[?7l\x1b[9Cxy",
+              "\x1b[38:5:3mx", "\x1b[38;5;3mx", "\x1b[2 qx", "\x1b[!px", "\x1b[?25lx", "\x1b(0q", "2;3Hx", ";3Hx", ":3mx", "$x", "mx", "\x07x", "\u{9c}x", "\x1b\\x"] {
+        conts.push(s.to_string());
+    }
+    let fresh_obs: Vec<_> = conts
+        .iter()
+        .map(|c| {
+            let mut f = build_vt(cols, rows, None);
+            let _ = f.feed_str(c);
+            (obs_full(&f), f.dump())
+        })
+        .collect();
+    let bad: Vec<(String, String)> = res
+        .par_iter()
+        .filter_map(|r| {
+            for (c, want) in conts.iter().zip(fresh_obs.iter()) {
+                let got = crate::engine::guarded(|| {
+                    let mut vt = build_vt(cols, rows, None);
+                    let _ = vt.feed_str(r);
+                    let _ = vt.feed_str("\x1bc");
+                    let _ = vt.feed_str(c);
+                    (obs_full(&vt), vt.dump())
+                });
+                match got {
+                    Ok(g) if g == *want => {}
+                    Ok(g) => {
+                        return Some((r.clone(), format!("{} ESC c {}: {:?} cursor {:?}; fresh terminal given {}: {:?} cursor {:?}", esc(r), esc(c), g.0.rows, g.0.cursor, esc(c), want.0.rows, want.0.cursor)))
+                    }
+                    Err(p) => return Some((r.clone(), format!("{} ESC c {}: panic: {}", esc(r), esc(c), p))),
+                }
+            }
+            None
+        })
+        .collect();
+    let n = res.len() as u64 * conts.len() as u64;
+    rep.evaluations += n;
+    rep.traces_validated += n;
+    rep.transitions += n;
+    rep.distinct_nontrivial += res.len() as u64;
+    rep.parts.push(serde_json::json!({"part":"parser-residue","residues":res.len(),"max_residue_len":ctx.tier.pick(3, 4),"continuations":conts.len(),"comparisons":n,"violating":bad.len()}));
+    println!("part parser-residue: {} residues x {} continuations, {} violating", res.len(), conts.len(), bad.len());
+    for (r, e) in bad.iter().take(3) {
+        emit_violation(ctx, rep, "C19", serde_json::json!({"part":"parser-residue","input":esc(r),"input_raw":r,"oracle":"ris-then-input","observed":e}));
+    }
+    if bad.len() > 3 {
+        rep.violations += bad.len() as u64 - 3;
+    }
+}
+
 pub fn run(ctx: &Ctx) -> Report {
     let mut rep = Report::new();
     let sa = Sys { conts: &conts_full };
@@ -129,7 +212,8 @@ pub fn run(ctx: &Ctx) -> Report {
     let cmp: u64 = rep.counters.iter().filter(|(k, _)| k.ends_with(".comparisons")).map(|(_, v)| *v).sum();
     rep.evaluations += cmp;
     rep.traces_validated = cmp;
-    rep.rule = "BFS over op histories (same alphabet as C11 incl. truncated sequences and resizes); at EVERY distinct state ESC c is applied and the result compared with a freshly built terminal of the current size and limit: all of lines(), cursor, cursor-key mode, dump(), then again after each probe of the battery and after every feed op of the alphabet".into();
+    parser_residue(ctx, &mut rep);
+    rep.rule = "BFS over op histories (same alphabet as C11 incl. truncated sequences and resizes); at EVERY distinct state ESC c is applied and the result compared with a freshly built terminal of the current size and limit: all of lines(), cursor, cursor-key mode, dump(), then again after each probe of the battery and after every feed op of the alphabet; plus the parser side: every string of <= 3/4 parameter, sub-parameter, marker, intermediate and final bytes after each of six introducers, then ESC c, then every continuation of the battery and 22 parameter-sensitive ones, compared with a fresh terminal given the continuation alone".into();
     rep.assumptions = vec!["equivalence is observational (public API) plus dump() equality".into()];
     rep
 }
@@ -140,6 +224,14 @@ pub fn replay(ctx: &Ctx, v: &Value) -> bool {
     let sb = Sys { conts: &conts_deep };
     let (full, deep) = parts!(tier, &sa, &sb);
     match v["part"].as_str().unwrap_or("") {
+        "parser-residue" => {
+            let r = v["input_raw"].as_str().unwrap_or("").to_string();
+            let mut rep = Report::new();
+            let c2 = Ctx { id: ctx.id.clone(), tier: Tier::Thorough, seed: 0, start: ctx.start, known: ctx.known.clone(), replay_dir: ctx.replay_dir.clone() };
+            parser_residue(&c2, &mut rep);
+            println!("replay of parser-residue {}: {} violating residues in the full enumeration", esc(&r), rep.violations);
+            rep.violations > 0
+        }
         "full-alphabet" => replay_part(ctx, &full, v),
         _ => replay_part(ctx, &deep, v),
     }
